@@ -90,20 +90,24 @@ func (cs *coreState) infeasibleSearchMiss(from, to *ssa.BasicBlock) bool {
 	if !ok {
 		return false
 	}
-	c, ok := strip(b.X).(*ssa.Call)
+	bx, by, bop := b.X, b.Y, b.Op
+	if sc, isC := strip(by).(*ssa.Call); isC && staticCalleeName(sc) == "sort.SearchStrings" {
+		bx, by, bop = by, bx, flipOp(bop)
+	}
+	c, ok := strip(bx).(*ssa.Call)
 	if !ok || staticCalleeName(c) != "sort.SearchStrings" {
 		return false
 	}
 	if f, _ := loadedField(c.Call.Args[0]); f != cs.SortedKeys && f != cs.sortedKeys {
 		return false
 	}
-	lc, ok := b.Y.(*ssa.Call)
+	lc, ok := by.(*ssa.Call)
 	if !ok || staticCalleeName(lc) != "builtin.len" {
 		return false
 	}
 	// which successor is the "not found" one?
-	missOnTrue := b.Op == token.EQL || b.Op == token.GEQ
-	missOnFalse := b.Op == token.LSS || b.Op == token.NEQ
+	missOnTrue := bop == token.EQL || bop == token.GEQ
+	missOnFalse := bop == token.LSS || bop == token.NEQ
 	if !(missOnTrue || missOnFalse) {
 		return false
 	}
